@@ -37,6 +37,8 @@ def history(arg):
         if used & {'s1', 's2'}:
             used.add('h1')
         used |= {'pch_' + d['name'] for d in decls if d.get('pch')}
+        if any(d.get('hdr') for d in decls):
+            used.add('h2')
         for f in sorted(used):
             ev.append(r.touch(f=f))
             ev.append(r.build('all'))
@@ -57,7 +59,7 @@ def directed():
     reaches only rarely: a precompiled header next to generated headers, a
     generated header produced from another target's output"""
     B = dict(kind='', name='', srcs=[], libs=[], ins=[], nouts=1,
-             always=False, deps=[], dist=True, pch=False)
+             always=False, deps=[], dist=True, pch=False, xdeps=[], hdr=False)
 
     def F(f):
         return {'f': f, 't': ''}
